@@ -147,3 +147,13 @@ Theorem C05_nested_any_configuration_any_depth : forall c, no_switch c -> forall
   scan 0 (out (fst (exec c (flat_forest f) (init, [])))) = Some 0.
 Proof. exact nested_any_cfg_any_depth. Qed.
 Print Assumptions C05_nested_any_configuration_any_depth.
+
+(* State restoration on the -pg shape beyond [safe_pg]: inside the stage-2 option class (time= and size= triggers
+   allowed when they come with a filter or a depth= trigger) every call, from every state the class can reach,
+   leaves the filter state and the record index as it found them. *)
+Theorem C05_state_restored_stage2_class : forall tg szf fm hc gd thr ms sh,
+  0 < gd -> wf_tg tg -> sh = CYG \/ pg_guard tg -> forall k, timed k -> forall s hk i o dp mx tm zs x,
+  fc s = fstate2 i o dp mx tm zs -> Rel2 fm gd thr i o dp mx tm zs x -> enabled s = true -> idx s + height k <= ms ->
+  exists s', exec (fcfg2 tg szf fm hc gd thr ms sh) (flat k) (s, hk) = (s', hk) /\ fc s' = fc s /\ ridx s' = ridx s.
+Proof. exact call_restores_state_sel2. Qed.
+Print Assumptions C05_state_restored_stage2_class.
